@@ -392,6 +392,7 @@ func runC11(c *Ctx) {
 	c.ruleComposer("C11.composer")
 	c.ruleListOps("C11.listops")
 	c.ruleNoHandOff("C11.section", PkgGated)
+	c.ruleGateSectionLeak("C11.section")
 	c.ruleGatedOrder()
 	c.ruleGatedNoGate("C11.nogate")
 	c.ruleGatedPass("C11.pass")
